@@ -10,7 +10,7 @@ GATE-10 the fields the visited-set key compares beyond those the expansion uses 
         every element that can enter the worklist
 PROV-1  the amount by which group teardown lowers a member's count derives from that member's traced count
 """
-from interp import DEAD, Engine, counter_read, iter_table
+from interp import Ev, DEAD, Engine, counter_read, iter_table
 from expr import is_pop_call, show, mentions, is_const, mk_field, mk_deref, mk_ref, table_of, box_part, children
 from rules_ts import add, rem, sub, is_elem_box
 
@@ -643,12 +643,29 @@ class Verdict:
         return None
 
 
+def known_kind(st, kexpr):
+    """The kind of a link on this path: tested positively, or the one kind left after the others were ruled out
+    (`if kind == Forward {..} else if matches!(kind, Backward) {..}` leaves Loopback)."""
+    v = st.variant(kexpr)
+    if v is not None:
+        return v
+    left = ALL_KINDS - {f[2] for f in st.flags if f[0] == "notvar" and f[1] == kexpr}
+    if len(left) == 1:
+        return next(iter(left))
+    return None
+
+
 def amount_is_traced(a, traced, box, ev):
     """Accepted forms of a group-lowering amount: the traced count of the same element, 0, the minimum of
     such an amount and the member's own strong count, or `strong - traced` as the stored value."""
     if is_const(a, 0):
         return True
     if a == traced or a == mk_deref(traced):
+        return True
+    # the member's own strong count: after a successful orphan test (GATE-4) strong <= traced for every key, so this
+    # is min(traced, strong) — the else-arm of an open-coded `if traced < strong { traced } else { strong }`
+    g0 = counter_read(a)
+    if g0 is not None and g0[1] == box and g0[2] == "strong":
         return True
     if a[0] == "call" and a[2] in ("core::cmp::Ord::min", "core::cmp::min") and len(a[3]) == 2:
         x, y = a[3]
@@ -874,6 +891,9 @@ class Trace:
                 self.forward_extended = True
                 self.forward_pushed = True
             return None
+        if ev.op == "insert" and len(ev.args) >= 3:
+            # `queue.insert(i, x)` queues x like a push does (what it costs is ITER-5's business)
+            ev = Ev("vec", ev.b, ev.si, op="push", recv=ev.get("recv"), args=[ev.args[0], ev.args[2]], res=ev.get("res"), line=ev.get("line"))
         if ev.op == "push" and len(ev.args) >= 2:
             W = mk_deref(ev.args[0])
             # is W a worklist (popped somewhere on this path)?
@@ -1202,7 +1222,7 @@ class Trace:
         src = iter_source(eo[1])
         if src is None or src[0] != "table" or not any(f[0] == "expanded" and f[2] == src[1] for f in st.flags):
             return
-        kv = st.variant(mk_field(link, "kind", LINK))
+        kv = known_kind(st, mk_field(link, "kind", LINK))
         if kv is not None:
             self.reg_kinds.add(kv)
             return
@@ -1308,7 +1328,7 @@ class Trace:
                 if f[1] in self.filtered_elems:
                     continue    # a pass may skip registration (e.g. it only queues); kind coverage is checked over the whole run
                 lk = mk_deref(mk_field(f[1], "0", ""))
-                kind = st.variant(mk_field(lk, "kind", LINK))
+                kind = known_kind(st, mk_field(lk, "kind", LINK))
                 if kind == "2":
                     continue    # a Loopback entry names the expanded node itself and logs a no-op: it need not be registered
                 eng.violate("GATE-7", "entry-kind-ignored:%s" % kind_name(kind), "an entry of an expanded node's link table (kind %s) is not registered in the trace's result map, so the verdict cannot see that object" % KIND_NAMES.get(kind, "unknown"), f[2], st)
